@@ -16,6 +16,7 @@
       PUTFILE t bytes                    -> [TI length]
       RELOAD t wall chk                  -> [TI status]
       SWEEP t wall chk k v.. j x..       -> [TI n; (TI status+4*big; TI hash) * n]
+      BLOCKSAVE t                        -> [TI 1; TI 1]  (save fails at open; dump unchanged)
       PROBE t wall chk                   -> [TI status+4*big; TI hash]  (load the file, flags-only hash)
       SLEEP t ms                         -> []                                      *)
 From Ferrous Require Import Base.Bytes Model.Resp Model.Types Model.Strings Model.Rdb.
@@ -329,6 +330,10 @@ Definition rdb_op (s : mst) (op : list tok) : list tok * mst :=
             end
         | _ => ([TB (bs "BADOP")], s)
         end
+      else if beq name (bs "BLOCKSAVE") then
+        (* the temporary file cannot be opened: write_snapshot fails before its first write;
+           the dump is untouched (Props/C10.v c10_failed_save_keeps_dump with k = 0) *)
+        ([TI 1; TI 1], s)
       else if beq name (bs "PROBE") then
         match rest with
         | [TI wall; TI chk] =>
